@@ -65,7 +65,7 @@ CONFIG = dict(
           "and REQUEST/answer pairing, REQUEST contents, rapid-commit path. non-trivial = the script has at least one "
           "reaction; distinct = distinct operation lines"),
     assumptions=[
-        "virtual time (testing/synctest): every scripted datagram arrives at its own instant (offsets 2^i ns), never on a retransmission deadline, and is processed to quiescence before the next",
+        "virtual time (testing/synctest): every scripted datagram arrives at its own instant (offsets 2^i ns), never on a retransmission deadline, and is processed to quiescence before the next (exactly the hypotheses under which C13_call_script proves that the script-level timed model allows one result, the abstract call's; what a coincidence with a deadline can change is C13_call_script_racing)",
         "Go nil and empty non-nil option values are identified in the model (neither MessageType() nor ServerIdentifier() distinguishes them)",
         "the transaction ids drawn by dhcpv4.New / dhcpv6.NewMessage and GetTime() are parameters of the model",
         "the oracle checks field clauses only on calls without user modifiers (completion clauses on all)",
